@@ -43,7 +43,7 @@ type c12Input struct {
 	NLook   int    `json:"nlook"`
 	NCache  int    `json:"ncache"`  // undeclared names present only in the start-up cache
 	Readers int    `json:"readers"` // reader goroutines
-	Ops     []int  `json:"ops"`     // driver actions: 0 change+refresh 1 hold 2 failing 3 expiry 4 lookup 5 burst of changes
+	Ops     []int  `json:"ops"`     // driver actions: 0 change+refresh 1 hold 2 failing 3 expiry 4 lookup 5 burst of changes 6/7 failing cache 8 watch window 9 updater on a looked-up name
 	Procs   int    `json:"procs"`   // GOMAXPROCS of the child
 	CloseFail bool `json:"close_fail,omitempty"` // the final cache flush at Close fails
 }
@@ -343,6 +343,7 @@ func (r *c12Reader) run(sh *c12Shared, floor *atomic.Int64, stop *atomic.Bool, r
 type c12Result struct {
 	Installs []c12Inst   `json:"-"`
 	Coq      string      `json:"coq"`
+	AltCoq   string      `json:"alt_coq"` // the same with one observed Updater take flipped (self-test)
 	Direct   string      `json:"direct"`
 	Stats    map[string]int64 `json:"stats"`
 }
@@ -426,6 +427,65 @@ func c12Child(in c12Input) c12Result {
 		}
 		return err
 	}
+	refreshBg := refresh
+	refresh = func() error { // the driver's calls are bounded: a poll that never ends is a verdict, not a hang
+		ch := make(chan error, 1)
+		go func() { ch <- refreshBg() }()
+		select {
+		case err := <-ch:
+			return err
+		case <-time.After(5 * time.Second):
+			if res.Direct == "" {
+				res.Direct = "Refresh blocked: a poll did not complete within 5 s"
+			}
+			return errors.New("blocked")
+		}
+	}
+	// updaters (watchers): uA on the first declared name is drained only in the watch windows (phase
+	// 8); the others - on the second declared name and on looked-up names (phase 9) - NEVER
+	type upd struct {
+		name  string
+		u     *setec.Updater[uint32]
+		calls *atomic.Int64
+	}
+	newUpd := func(name string) (*upd, error) {
+		x := &upd{name: name, calls: new(atomic.Int64)}
+		type r struct {
+			u   *setec.Updater[uint32]
+			err error
+		}
+		ch := make(chan r, 1)
+		go func() {
+			u, err := setec.NewUpdater(ctx, st, name, func(b []byte) (uint32, error) {
+				x.calls.Add(1)
+				v, _ := c12Verify(name, b)
+				return v, nil
+			})
+			ch <- r{u, err}
+		}()
+		select {
+		case got := <-ch:
+			x.u = got.u
+			return x, got.err
+		case <-time.After(5 * time.Second):
+			return nil, errors.New("NewUpdater blocked")
+		}
+	}
+	uA, err := newUpd(decl[0])
+	if err != nil {
+		res.Direct = "NewUpdater failed: " + err.Error()
+		return res
+	}
+	res.Stats["updaters"]++
+	if len(decl) > 1 {
+		if _, err := newUpd(decl[1]); err != nil {
+			res.Direct = "NewUpdater failed: " + err.Error()
+			return res
+		}
+		res.Stats["updaters"]++
+		res.Stats["updaters-never-drained"]++
+	}
+	var watchA []string // WN / WT steps observed in the watch windows of uA
 	var nilSecret atomic.Bool
 	// background: a second refresher (coalescing), the ticker driver, handle takers
 	wgBg.Add(3)
@@ -433,7 +493,7 @@ func c12Child(in c12Input) c12Result {
 		defer wgBg.Done()
 		r1 := rand.New(rand.NewPCG(in.Seed, 1249))
 		for !stopBg.Load() {
-			refresh()
+			refreshBg()
 			time.Sleep(time.Duration(100+r1.IntN(400)) * time.Microsecond)
 		}
 	}()
@@ -510,6 +570,70 @@ func c12Child(in c12Input) c12Result {
 				res.Direct = "Refresh failed although the service answered every request: " + err.Error()
 			}
 			res.Stats["refresh"]++
+		case 8: // a watch window: the watched name gets new versions in CONSECUTIVE polls, nobody drains
+			err := refresh()
+			for try := 0; err != nil && try < 3 && res.Direct == ""; try++ {
+				err = refresh()
+			}
+			if err != nil {
+				if res.Direct == "" {
+					res.Direct = "Refresh failed although the service answered every request: " + err.Error()
+				}
+				continue
+			}
+			uA.u.Get() // drain: the store is up to date and the flag is clear from here on
+			k := 2 + rng.IntN(2)
+			okw := true
+			for round := 0; round < k && okw; round++ {
+				svc.bump(decl[0], 0)
+				err := refresh()
+				for try := 0; err != nil && try < 3 && res.Direct == ""; try++ {
+					err = refresh()
+				}
+				if err != nil {
+					okw = false
+					if res.Direct == "" {
+						res.Direct = "Refresh failed although the service answered every request: " + err.Error()
+					}
+					break
+				}
+				watchA = append(watchA, "WN")
+				res.Stats["undrained-notifications"]++
+			}
+			if !okw {
+				continue
+			}
+			// handles of watched and unwatched names, Secret and LookupSecret go on
+			if !waitReads("after consecutive polls notified an undrained watcher") {
+				continue
+			}
+			for t := 0; t < 2; t++ {
+				c0 := uA.calls.Load()
+				v := uA.u.Get()
+				watchA = append(watchA, "WT "+coqBool(uA.calls.Load() > c0))
+				svc.mu.Lock()
+				cur := svc.active[decl[0]]
+				svc.mu.Unlock()
+				if v != cur && res.Direct == "" {
+					res.Direct = fmt.Sprintf("Updater.Get returned version %d of %q after a completed poll installed %d", v, decl[0], cur)
+				}
+			}
+			res.Stats["watch-windows"]++
+		case 9: // an updater on a looked-up name, never drained
+			if nextLook >= len(look) {
+				continue
+			}
+			lname := look[nextLook]
+			nextLook++
+			if _, err := newUpd(lname); err != nil {
+				res.Direct = "NewUpdater (looked-up name) failed: " + err.Error()
+				continue
+			}
+			if h := st.Secret(lname); h != nil {
+				sh.publish(lname, h)
+			}
+			res.Stats["updaters"]++
+			res.Stats["updaters-never-drained"]++
 		case 6: // the Cache.Write of a poll's apply fails: Refresh reports it, the values are installed, reads go on
 			cache.failNext.Store(true)
 			svc.bump(decl[rng.IntN(len(decl))], 0)
@@ -680,7 +804,16 @@ func c12Child(in c12Input) c12Result {
 	res.Stats["reads"] = total
 	res.Stats["logged"] = int64(len(lg))
 	res.Stats["installs"] = int64(len(inst))
-	res.Coq = fmt.Sprintf("Log %s %s", coqList(it), coqList(lg))
+	wt := fmt.Sprintf("[(%s,%s)]", coqBytes([]byte(decl[0])), coqList(watchA))
+	res.Coq = fmt.Sprintf("LogW %s %s %s", coqList(it), coqList(lg), wt)
+	for i := len(watchA) - 1; i >= 0; i-- { // self-test material: the last observed take flipped
+		if strings.HasPrefix(watchA[i], "WT ") {
+			alt := append([]string(nil), watchA...)
+			alt[i] = "WT " + coqBool(watchA[i] != "WT true")
+			res.AltCoq = fmt.Sprintf("LogW %s %s [(%s,%s)]", coqList(it), coqList(lg), coqBytes([]byte(decl[0])), coqList(alt))
+			break
+		}
+	}
 	return res
 }
 
@@ -691,11 +824,11 @@ func c12Gen(rng *rand.Rand, i int) c12Input {
 		Readers: 2 + rng.IntN(4), Procs: []int{2, 4, 8, 16}[i%4]}
 	n := 10 + rng.IntN(10)
 	for k := 0; k < n; k++ {
-		in.Ops = append(in.Ops, []int{0, 0, 0, 1, 2, 3, 4, 4, 5, 6, 7}[rng.IntN(11)])
+		in.Ops = append(in.Ops, []int{0, 0, 0, 1, 2, 3, 4, 4, 5, 6, 7, 8, 8, 9}[rng.IntN(14)])
 	}
 	in.CloseFail = i%2 == 0
 	// every scenario has at least one of each special phase
-	in.Ops = append(in.Ops, 1, 3, 0, 6, 2, 0)
+	in.Ops = append(in.Ops, 1, 3, 0, 6, 8, 2, 0)
 	return in
 }
 
@@ -751,6 +884,9 @@ func runC12(o Opts) {
 		rec.Coq = res.Coq
 		rec.Obs = res.Stats
 		rec.Nontrivial = res.Stats["hold"] > 0 && res.Stats["installs"] > 5 && res.Stats["logged"] > 10
+		if res.Stats["watch-windows"] > 0 {
+			rec.Tags = append(rec.Tags, "undrained-watcher")
+		}
 		for _, k := range []string{"hold", "expiry", "failing", "lookup", "pinned-after-snapshot"} {
 			if res.Stats[k] > 0 {
 				rec.Tags = append(rec.Tags, k)
@@ -763,7 +899,11 @@ func runC12(o Opts) {
 		}
 		if rec.Direct == nil && rec.Coq != "" && len(selfs) < 4 {
 			// self-test: the same log with one read moved back to an older value / a foreign value
-			if alt := c12Alter(res.Coq, len(selfs)); alt != "" {
+			alt := c12Alter(res.Coq, len(selfs))
+			if len(selfs)%2 == 1 && res.AltCoq != "" {
+				alt = res.AltCoq // an observed Updater take flipped
+			}
+			if alt != "" {
 				s := rec
 				s.Coq = alt
 				s.SelfTest = true
@@ -809,7 +949,21 @@ func c12Head(s string, n int) string {
 
 // c12Alter produces a log the monitor must reject: kind 0/2 appends a read that goes back to the
 // first value of the reader's last name; kind 1/3 appends a read of a never-served value.
-func c12Alter(coq string, kind int) string {
+func c12Alter(full string, kind int) string {
+	// the read log ends where the watch list begins
+	cut := strings.LastIndex(full, "] [(")
+	if cut < 0 {
+		return ""
+	}
+	rest := full[cut+1:]
+	alt := c12AlterLog(full[:cut+1], kind)
+	if alt == "" {
+		return ""
+	}
+	return alt + rest
+}
+
+func c12AlterLog(coq string, kind int) string {
 	i := strings.LastIndex(coq, "RL ")
 	if i < 0 || !strings.HasSuffix(coq, "]") {
 		return ""
